@@ -9,6 +9,8 @@ import (
 	"github.com/orbs-network/lean-helix-go/services/interfaces"
 	"github.com/orbs-network/lean-helix-go/spec/types/go/primitives"
 
+	"github.com/orbs-network/scribe/log"
+
 	"verif/ev"
 	"verif/fakes"
 	"verif/ref"
@@ -119,6 +121,18 @@ func (r HoldRule) matches(m *Msg) bool {
 		f = uint(m.From)
 	}
 	return r.From>>f&1 == 1
+}
+
+// DebugLogger, when set before NewWorld, receives the library's log lines of every node (debugging aid; nil in all checks).
+var DebugLogger func(node int, line string)
+
+type dbgLog struct{ i int }
+
+func (d dbgLog) Debug(f string, a ...interface{}) { DebugLogger(d.i, fmt.Sprintf(f, a...)) }
+func (d dbgLog) Info(f string, a ...interface{})  { DebugLogger(d.i, fmt.Sprintf(f, a...)) }
+func (d dbgLog) Error(f string, a ...interface{}) { DebugLogger(d.i, fmt.Sprintf(f, a...)) }
+func (d dbgLog) ConsensusTrace(f string, fields ...*log.Field) {
+	DebugLogger(d.i, "TRACE "+f)
 }
 
 type World struct {
@@ -295,6 +309,9 @@ func (w *World) newNode(i int) *Node {
 		KeyManager:              n.KM,
 		Storage:                 n.Sto,
 		OverrideElectionTrigger: n.Sch,
+	}
+	if DebugLogger != nil {
+		cfg.Logger = dbgLog{i}
 	}
 	n.VN = leanhelix.NewVerifNode(cfg,
 		func(ctx context.Context, block interfaces.Block, proof []byte) error {
